@@ -1113,6 +1113,163 @@ def option_instances():
     return out
 
 
+def argform_instances():
+    """ARGUMENT-FORM variants: one instance per spelling of every constructor option that takes
+    an index / axis / shape / sequence, each with the instance built from the canonical spelling.
+    Returns [(class, 'option=spelling', thunk, canonical thunk)]."""
+    import odl
+    S = odl.solvers
+    out = []
+    # MatrixOperator: axis negative and positive, ndim 2-3, square and non-square
+    for shape in ((3, 3), (2, 3), (3, 2), (2, 3, 2), (3, 3, 3)):
+        nd = len(shape)
+        for axis in list(range(nd)) + [-k for k in range(1, nd + 1)]:
+            for rows in sorted({shape[axis], shape[axis] + 1}):
+                mat = (np.arange(rows * shape[axis], dtype=float).reshape(rows, shape[axis]) % 5
+                       - 2.0) / 2
+                out.append(('MatrixOperator', 'axis={}@{}r{}'.format(axis, 'x'.join(map(str, shape)),
+                                                                     rows),
+                            lambda mat=mat, shape=shape, axis=axis:
+                            odl.MatrixOperator(mat, domain=odl.rn(shape), axis=axis),
+                            lambda mat=mat, shape=shape, axis=axis, nd=nd:
+                            odl.MatrixOperator(mat, domain=odl.rn(shape), axis=axis % nd)))
+    d2 = odl.uniform_discr([0, 0], [1, 1], (4, 3))
+    d3 = odl.uniform_discr([0, 0, 0], [1, 1, 1], (2, 3, 2))
+    for sp, nd, nm in ((d2, 2, '2d'), (d3, 3, '3d')):
+        for axis in range(-nd, nd):
+            out.append(('PartialDerivative', 'axis={}@{}'.format(axis, nm),
+                        lambda sp=sp, axis=axis: odl.PartialDerivative(sp, axis),
+                        lambda sp=sp, axis=axis, nd=nd: odl.PartialDerivative(sp, axis % nd)))
+    ps3 = odl.ProductSpace(odl.rn(3), 3)
+    for spell, canon in ((1, 1), (-1, 2), ([0, 2], [0, 2]), ((0, 2), [0, 2]),
+                         (slice(0, 2), [0, 1]), (slice(None, None, 2), [0, 2]), ([-1, 0], [2, 0])):
+        for cls in (odl.ComponentProjection, odl.ComponentProjectionAdjoint):
+            out.append((cls.__name__, 'index={!r}'.format(spell).replace(' ', ''),
+                        lambda cls=cls, spell=spell: cls(ps3, spell),
+                        lambda cls=cls, canon=canon: cls(ps3, canon)))
+    idx = [[0, 1, 3], [1, 2, 0]]
+    forms = (('list', idx, idx), ('array', np.array(idx), idx),
+             ('tuple', tuple(tuple(r) for r in idx), idx),
+             ('negative', [[-1, -4, 1], [-1, 0, -2]], [[3, 0, 1], [2, 0, 1]]),
+             ('repeated', [[1, 1, 1], [2, 2, 0]], [[1, 1, 1], [2, 2, 0]]))
+    for fname, spell, canon in forms:
+        out.append(('SamplingOperator', 'sampling_points=' + fname,
+                    lambda spell=spell: odl.SamplingOperator(d2, spell),
+                    lambda canon=canon: odl.SamplingOperator(d2, canon)))
+        out.append(('WeightedSumSamplingOperator', 'sampling_points=' + fname,
+                    lambda spell=spell: odl.WeightedSumSamplingOperator(d2, spell),
+                    lambda canon=canon: odl.WeightedSumSamplingOperator(d2, canon)))
+    d1 = odl.uniform_discr(0, 1, 5)
+    out.append(('SamplingOperator', 'sampling_points=1d-flat',
+                lambda: odl.SamplingOperator(d1, [0, 2, 4]),
+                lambda: odl.SamplingOperator(d1, [[0, 2, 4]])))
+    for order in ('C', 'F'):
+        out.append(('FlatteningOperator', 'order=' + order,
+                    lambda order=order: odl.FlatteningOperator(odl.rn((2, 3)), order=order),
+                    lambda order=order: odl.FlatteningOperator(odl.rn((2, 3)), order=order)))
+    dc2 = odl.uniform_discr([0, 0], [1, 1], (4, 6), dtype='complex128')
+    for spell, canon in ((1, (1,)), (-1, (1,)), ((1,), (1,)), ((-1,), (1,)), ((0, 1), (0, 1)),
+                         ((-2, -1), (0, 1)), ([0], (0,)), (None, (0, 1))):
+        tag = 'axes={!r}'.format(spell).replace(' ', '')
+        out.append(('DiscreteFourierTransform', tag,
+                    lambda spell=spell: odl.trafos.DiscreteFourierTransform(dc2, axes=spell,
+                                                                            impl='numpy'),
+                    lambda canon=canon: odl.trafos.DiscreteFourierTransform(dc2, axes=canon,
+                                                                            impl='numpy')))
+        out.append(('FourierTransform', tag,
+                    lambda spell=spell: odl.trafos.FourierTransform(dc2, axes=spell, impl='numpy'),
+                    lambda canon=canon: odl.trafos.FourierTransform(dc2, axes=canon, impl='numpy')))
+    dw = odl.uniform_discr([0, 0], [1, 1], (4, 8))
+    for spell, canon in ((1, (1,)), (-1, (1,)), ((1,), (1,)), ((-1,), (1,)), ((0, 1), (0, 1)),
+                         (None, (0, 1))):
+        out.append(('WaveletTransform', 'axes={!r}'.format(spell).replace(' ', ''),
+                    lambda spell=spell: odl.trafos.WaveletTransform(dw, 'haar', nlevels=1, axes=spell),
+                    lambda canon=canon: odl.trafos.WaveletTransform(dw, 'haar', nlevels=1,
+                                                                    axes=canon)))
+    d6 = odl.uniform_discr(0, 1, 6)
+    for spell in (2, (2,), [2], np.array([2])):
+        out.append(('ResizingOperator', 'offset={!r}'.format(spell).replace(' ', '')[:24],
+                    lambda spell=spell: odl.ResizingOperator(d6, ran_shp=(10,), offset=spell),
+                    lambda: odl.ResizingOperator(d6, ran_shp=(10,), offset=(2,))))
+    for spell in (10, (10,), [10]):
+        out.append(('ResizingOperator', 'ran_shp={!r}'.format(spell).replace(' ', ''),
+                    lambda spell=spell: odl.ResizingOperator(d6, ran_shp=spell),
+                    lambda: odl.ResizingOperator(d6, ran_shp=(10,))))
+    for spell in ((2, 1), [2, 1], np.array([2, 1])):
+        out.append(('ResizingOperator', 'offset2d={!r}'.format(spell).replace(' ', '')[:24],
+                    lambda spell=spell: odl.ResizingOperator(d2, ran_shp=(8, 5), offset=spell),
+                    lambda: odl.ResizingOperator(d2, ran_shp=(8, 5), offset=(2, 1))))
+    # sequence arguments of proximal factories / functionals
+    r3 = odl.rn(3)
+    from odl.solvers.nonsmooth import proximal_operators as po
+    for fname, lo, up in (('list', [-1.0, -0.5, 0.0], [1.0, 2.0, 0.5]),
+                          ('array', np.array([-1.0, -0.5, 0.0]), np.array([1.0, 2.0, 0.5])),
+                          ('element', r3.element([-1.0, -0.5, 0.0]), r3.element([1.0, 2.0, 0.5]))):
+        out.append(('ProxOpBoxConstraint', 'bounds=' + fname,
+                    lambda lo=lo, up=up: po.proximal_box_constraint(r3, lo, up)(1.0),
+                    lambda: po.proximal_box_constraint(r3, r3.element([-1.0, -0.5, 0.0]),
+                                                       r3.element([1.0, 2.0, 0.5]))(1.0)))
+    ps = odl.ProductSpace(r3, 2)
+    for fname, sig in (('list', [0.5, 2.0]), ('tuple', (0.5, 2.0)), ('array', np.array([0.5, 2.0]))):
+        out.append(('DiagonalOperator', 'sigma=' + fname,
+                    lambda sig=sig: S.SeparableSum(S.L1Norm(r3), S.L2NormSquared(r3)).proximal(sig),
+                    lambda: S.SeparableSum(S.L1Norm(r3), S.L2NormSquared(r3)).proximal([0.5, 2.0])))
+        out.append(('DiagonalOperator', 'combine_sigma=' + fname,
+                    lambda sig=sig: po.combine_proximals(po.proximal_l1(r3),
+                                                         po.proximal_l2_squared(r3))(sig),
+                    lambda: po.combine_proximals(po.proximal_l1(r3),
+                                                 po.proximal_l2_squared(r3))([0.5, 2.0])))
+    return out
+
+
+def run_argforms(ctx, deep=False):
+    """Every spelling: the zoo oracle (ip == oop, x untouched, result in range, ownership ...)
+    and the same values as the instance built from the canonical spelling, on recipe inputs."""
+    refused = {}
+    for cname, opt, mk, mkc in argform_instances():
+        label = '{}[{}]'.format(cname, opt)
+        stratum = 'argform/{}/{}'.format(cname, opt)
+        ctx.hit(stratum)
+        try:
+            canon = mkc()
+        except Exception as e:  # noqa
+            refused[label + ' (canonical)'] = '{}: {}'.format(type(e).__name__, str(e)[:70])
+            continue
+        try:
+            op = mk()
+        except Exception as e:  # noqa: the constructor refuses this spelling
+            refused[label] = '{}: {}'.format(type(e).__name__, str(e)[:70])
+            continue
+        case = {'kind': 'argform', 'class': cname, 'option': opt}
+        key = 'argform {} {}'.format(cname, opt)
+        if op.domain != canon.domain or op.range != canon.range:
+            ctx.violation(key + ' check=same-spaces-as-canonical',
+                          'domain / range differ from the canonical spelling: {} -> {} vs {} -> {}'
+                          .format(op.domain, op.range, canon.domain, canon.range), case)
+            continue
+        for k, x in enumerate(recipe_inputs(op.domain, label)[:4]):
+            want = safe_call(canon, x.copy() if hasattr(x, 'copy') else x)
+            if want.status != 'ok':
+                continue
+            got = safe_call(op, x.copy() if hasattr(x, 'copy') else x)
+            if got.status != 'ok' or not _same(got.val, want.val, 1e-12):
+                ctx.violation(key + ' check=oop-equals-canonical',
+                              'op(x) = {} but the canonical spelling gives {}'.format(
+                                  got.val[:6] if got.status == 'ok' else got.status, want.val[:6]),
+                              dict(case, recipe=k))
+            if not is_field(op.range):
+                y = filled(op.range, 'nan', ctx.rng)
+                o = safe_call(op, x.copy() if hasattr(x, 'copy') else x, out=y)
+                if o.status != 'ok' or not _same(snapshot(y), want.val, 1e-12):
+                    ctx.violation(key + ' check=in-place-equals-canonical',
+                                  'op(x, out=y) = {} but the canonical spelling gives op(x) = {}'
+                                  .format(snapshot(y)[:6] if o.status == 'ok' else o.status,
+                                          want.val[:6]), dict(case, recipe=k))
+        nt, ev = check_instance(ctx, label, op, ctx.rng, deep)
+        ctx.case(('argform', label) if nt else None)
+    ctx.extra['argform_spellings_refused_by_the_constructor'] = refused
+
+
 def derivation_point(label, op):
     """Deterministic point for `derivative(x)` (depends on the label only, so that a derived
     operator can be rebuilt exactly by `replay`)."""
@@ -2241,6 +2398,10 @@ class CallCoverage(object):
         code = getattr(func, '__code__', None)
         if code is None or code in self.funcs or '/odl/' not in code.co_filename.replace('\\', '/'):
             return
+        # label by the DEFINING class (a `_call` inherited by several classes is one function)
+        parts = getattr(func, '__qualname__', label).split('.')
+        if len(parts) >= 2:
+            label = parts[-2] if parts[-2] != '<locals>' else '.'.join(parts[:-1])
         self.funcs[code] = (label, func)
         self.mon.set_local_events(self.TOOL, code, self.mon.events.LINE)
         # same-module helper functions called by name (one level)
@@ -2255,7 +2416,8 @@ class CallCoverage(object):
                 if inspect.isfunction(g) and g.__module__ == func.__module__:
                     hcode = g.__code__
                     if hcode not in self.funcs:
-                        self.funcs[hcode] = (label + ' > ' + g.__name__, g)
+                        # class-independent label: the helper is shared by several classes
+                        self.funcs[hcode] = ('helper ' + g.__name__, g)
                         self.mon.set_local_events(self.TOOL, hcode, self.mon.events.LINE)
 
     def close(self):
@@ -2382,6 +2544,7 @@ EXPECTED_BRANCHES = (
     ['dispatch/dual/' + o for o in ('ok', 'err:domain', 'err:range', 'err:type', 'err:value')] +
     ['wrapper-stratum/{}/{}'.format(w, l) for w in STRATA_WRAPPERS for l in STRATA_LEAVES] +
     ['wrapper-stratum/{}/{}'.format(w, l) for w in STRATA_SHARED for l in STRATA_LINEAR_LEAVES] +
+    ['argform/{}/{}'.format(c, o) for c, o, _, _ in argform_instances()] +
     ['layout/out-F', 'layout/out-strided', 'layout/x-F', 'size/large-2d', 'ownership/result'] +
     ['ownership/result/' + c for c in MODELLED if c != 'InnerProductOperator'])
 
@@ -2423,23 +2586,23 @@ KNOWN_UNREACHED = {
     # (the table is fed by the deterministic coverage pass only: recipe inputs that are a function
     # of the instance label, incl. aliased calls; nothing here depends on VERIF_SEED)
     # the last `elif` of an exhaustive chain: never false
-    "Divergence > finite_diff :: if method == 'backward' [false]": 'exhaustive elif chain',
-    "L2Norm :: if self.exponent == np.inf [false]": 'exhaustive elif chain (LpNorm._call)',
+    "helper finite_diff :: if method == 'backward' [false]": 'exhaustive elif chain',
+    "LpNorm :: if self.exponent == np.inf [false]": 'exhaustive elif chain (LpNorm._call)',
     # helpers that the operators always call with `out`
-    "Divergence > finite_diff :: if out is None [true]": 'operators always pass out',
-    "ProximalConvexConjLinfty > proj_l1 :: if out is None [true]": 'operators always pass out',
+    "helper finite_diff :: if out is None [true]": 'operators always pass out',
+    "helper proj_l1 :: if out is None [true]": 'operators always pass out',
     # no constructive recipe
     "ProximalL2 :: if x_norm > 0 [false]": 'needs ||x - g|| == 0 exactly with the (1 + eps) factor',
     "WaveletTransformInverse :: if n_recon == n_intended + 1 [false]": 'depends on pywt output sizes',
     "ProximalConvexConjKLCrossEntropy :: if not np.issubsctype(self.domain.dtype, np.complexfloating) [false]":
         'complex domain: lambertw on complex data is outside the factory contract',
-    "ProximalConvexConjLinfty > _const_weight :: if isinstance(space, ProductSpace) [true]":
+    "helper _const_weight :: if isinstance(space, ProductSpace) [true]":
         'linfty proximals on product spaces are not constructible through the zoo plans',
-    "ResizingOperatorAdjoint > _inner_weights :: if hasattr(weighting, 'array') [false]":
+    "helper _inner_weights :: if hasattr(weighting, 'array') [false]":
         'weighting with neither const nor array (custom weighting)',
-    "ResizingOperatorAdjoint > _scale_bdry_cells :: if inverse [false]":
+    "helper _scale_bdry_cells :: if inverse [false]":
         'the forward scaling is reached through ResizingOperator.adjoint.inverse only',
-    "absolute_op :: if nargin == 1 [false]": 'ufunc functionals with two inputs are not supported',
+    "ufunc_functional_factory.<locals> :: if nargin == 1 [false]": 'ufunc functionals with two inputs are not supported',
 }
 
 
@@ -2449,6 +2612,7 @@ def _run(ctx):
     run_pso(ctx, 120 if ctx.quick else 1200)
     run_wrapper_strata(ctx, 1 if ctx.quick else 4)
     run_layouts(ctx)
+    run_argforms(ctx)        # (not deep: the spellings differ in construction, not in inputs)
     run_zoo(ctx, deep=not ctx.quick)
     report_unhit(ctx)
 
@@ -2490,6 +2654,13 @@ def replay(ctx, case):
         sub = Ctx2()
         run_dispatch(sub, cases=[{k: v for k, v in case.items() if k != 'kind'}], model=False)
         return sub.violations[0]['what'] if sub.violations else None
+    if case.get('kind') == 'argform':
+        sub = Ctx2()
+        sub.rng = random.Random(0)
+        run_argforms(sub)
+        hits = [v for v in sub.violations if v['replay'].get('class') == case.get('class') and
+                v['replay'].get('option') == case.get('option')]
+        return hits[0]['what'] if hits else None
     if case.get('kind') == 'layout':
         sub = Ctx2()
         run_layouts(sub, only=(case['size'], case['op'], case['x_layout'], case['out_layout'],
